@@ -1031,7 +1031,8 @@ def _r3(ctx, pkg):
     h = _example_handle(pkg)
     ctx.saw(EXAMPLE, "ExampleCommand.handle")
     modvar = next((n.targets[0].id for n in ast.walk(h) if isinstance(n, ast.Assign) and isinstance(n.targets[0], ast.Name) and "import_module" in ast.unparse(n.value)), "examplemod")
-    attrs = sorted({n.attr for n in ast.walk(h) if isinstance(n, ast.Attribute) and isinstance(n.value, ast.Name) and n.value.id == modvar})
+    attrs = sorted({n.attr for n in ast.walk(h) if isinstance(n, ast.Attribute) and isinstance(n.value, ast.Name) and n.value.id == modvar
+                    and not (n.attr.startswith("__") and n.attr.endswith("__"))})          # (__name__, __file__ .. every module has)
     mods = [f for f in pkg.files if f.startswith("naunet/examples/") and f.endswith("__init__.py") and f != "naunet/examples/__init__.py"]
     ctx.floor("R3", "example modules", len(mods), 6)
     for f in mods:
@@ -1191,6 +1192,20 @@ def _r4_r6_r7(ctx, pkg):
                     if isinstance(c, ast.Call) and isinstance(c.func, ast.Attribute) and c.func.attr == "split" and c.args and isinstance(c.args[0], ast.Constant) and c.args[0].value == ":":
                         n6 += 1
                         maxsplit = len(c.args) > 1 or any(k.arg == "maxsplit" for k in c.keywords)
+                        if not maxsplit and isinstance(n, ast.Assign) and n.value is c and isinstance(n.targets[0], ast.Name):
+                            # `parts = piece.split(":")` bound to a local: what happens to a surplus piece depends on how `parts` is read
+                            pn = n.targets[0].id
+                            uses = [(x, par) for sc_ in _option_scopes(pkg, ih, opt6)[0] for par in ast.walk(sc_) for x in ast.iter_child_nodes(par)
+                                    if isinstance(x, ast.Name) and x.id == pn and isinstance(x.ctx, ast.Load)]
+                            by_index = [par for x, par in uses if isinstance(par, ast.Subscript) and par.value is x and isinstance(par.slice, ast.Constant)]
+                            unpacked = [par for x, par in uses if isinstance(par, ast.Assign) and par.value is x and isinstance(par.targets[0], (ast.Tuple, ast.List))
+                                        and not any(isinstance(e_, ast.Starred) for e_ in par.targets[0].elts)]
+                            if uses and len(unpacked) == len(uses):
+                                ctx.ok("R6", f"--{opt6}: split(':')", (INIT, n.lineno), f"`{pn}` is only unpacked into names: a surplus ':' raises instead of dropping text")
+                                continue
+                            if not by_index:
+                                ctx.unrec("R6", f"--{opt6}: split(':')", (INIT, n.lineno), f"`{ast.unparse(n)[:60]}`: how the pieces are read is not decided here")
+                                continue
                         if not maxsplit and any(isinstance(j, ast.Call) and isinstance(j.func, ast.Attribute) and j.func.attr == "join" and isinstance(j.func.value, ast.Constant)
                                                 and j.func.value.value == ":" for sc_ in _option_scopes(pkg, ih, opt6)[0] for j in ast.walk(sc_)):
                             # the pieces are put together again with ':' somewhere in the parser: whether the tail survives is not read here
@@ -1251,19 +1266,36 @@ def _r4_r6_r7(ctx, pkg):
                 creates.append(n.args[1] if len(n.args) > 1 else n)
         found = "; ".join(ast.unparse(c)[:70] for c in creates)
 
+        def bound_in_loop(v):
+            """a local bound exactly once inside the loop over the occurrences (a new object per pass): the expression it is bound to"""
+            if isinstance(v, ast.Name):
+                asg = [a for a in ast.walk(lp) if isinstance(a, ast.Assign) and len(a.targets) == 1 and isinstance(a.targets[0], ast.Name) and a.targets[0].id == v.id]
+                st_ = [x for x in ast.walk(ih) if isinstance(x, ast.Name) and x.id == v.id and isinstance(x.ctx, ast.Store)]
+                if len(asg) == 1 and len(st_) == 1:
+                    return asg[0].value
+            return v
+
         def fresh_list(v):
-            return isinstance(v, (ast.List, ast.ListComp)) or (isinstance(v, ast.Call) and isinstance(v.func, ast.Name) and v.func.id == "list")
+            v = bound_in_loop(v)
+            return isinstance(v, (ast.List, ast.ListComp)) or (isinstance(v, ast.Call) and isinstance(v.func, ast.Name) and v.func.id == "list") or \
+                (isinstance(v, ast.Call) and isinstance(v.func, ast.Attribute) and v.func.attr == "split")           # (str.split builds a new list)
 
         def fresh(c):
             """True: a new dict with lists of its own; False: an object that other entries share; None: not decided here"""
-            if isinstance(c, ast.Dict):
-                return all(fresh_list(v) for v in c.values) if all(fresh_list(v) or isinstance(v, (ast.Name, ast.Attribute)) for v in c.values) else None
-            if isinstance(c, ast.Call) and isinstance(c.func, ast.Name) and c.func.id == "dict" and not c.args and c.keywords:
-                return all(fresh_list(k.value) for k in c.keywords) if all(fresh_list(k.value) or isinstance(k.value, (ast.Name, ast.Attribute)) for k in c.keywords) else None
+            c = bound_in_loop(c)
+            def shared(v):
+                """a name / attribute that no statement of the loop binds: one object for every pass"""
+                v = bound_in_loop(v)
+                return isinstance(v, ast.Attribute) or (isinstance(v, ast.Name) and not any(isinstance(x, ast.Name) and x.id == v.id and isinstance(x.ctx, ast.Store) for x in ast.walk(lp)))
+            if isinstance(c, ast.Dict) or (isinstance(c, ast.Call) and isinstance(c.func, ast.Name) and c.func.id == "dict" and not c.args and c.keywords):
+                vals = list(c.values) if isinstance(c, ast.Dict) else [k.value for k in c.keywords]
+                if all(fresh_list(v) for v in vals):
+                    return True
+                return False if any(shared(v) for v in vals) else None
             if isinstance(c, ast.Call) and ast.unparse(c.func) in ("copy.deepcopy", "deepcopy") and len(c.args) == 1:
                 return True
             if isinstance(c, (ast.Name, ast.Attribute)):
-                return False              # the same object for every species
+                return False if shared(c) else None             # the same object for every species / a local of the loop this rule does not follow
             if isinstance(c, ast.Call) and ((isinstance(c.func, ast.Attribute) and c.func.attr == "copy" and not c.args) or ast.unparse(c.func) in ("dict", "copy.copy")):
                 return False              # a shallow copy: the lists inside are shared
             return None
